@@ -404,8 +404,11 @@ Definition first_live_at (p : pth) (ps : list obj) : option nat :=
 (* sync of the entry of slot i (SyncManager.sync / embrace_change): deletion -> delete_synced; no live peer
    recorded -> creation: a live object already at the translated path with the same content is ADOPTED
    (manager.py:706-715 "use existing", 1139-1179 / 1634-1649 "same hash as remote ... merge"), one with other
-   content is renamed to ".conflicted"; otherwise rename and/or upload as the sync marks require *)
-Definition plan_sync_slot (adopt : bool) (sl : slot) : list sop :=
+   content is renamed to ".conflicted"; otherwise rename and/or upload as the sync marks require.
+   know = the peer's latest event has been delivered (the entry knows the peer's present hash): a half-recorded
+   upload then shows as "both sides changed, same content" and is merged without a provider write
+   (hash_conflict -> handle_split_conflict, manager.py:1634-1649); otherwise the content is uploaded again *)
+Definition plan_sync_slot (adopt know : bool) (sl : slot) : list sop :=
   match sl_mem sl with
   | None => []
   | Some e =>
@@ -439,15 +442,18 @@ Definition plan_sync_slot (adopt : bool) (sl : slot) : list sop :=
       | Some p =>
         SRefresh ::
         (if opt_eqb (s_spath (e_org e)) (Some (os_path now)) then [] else [SPRename k]) ++
-        (if opt_eqb (s_shash (e_org e)) (hash_of (os_kind now)) then [] else
-           match os_kind now with KFile _ => [SPUpload k] | KDir => [] end) ++
+        (if opt_eqb (s_shash (e_org e)) (hash_of (os_kind now)) then []
+         else if know && kind_eqb (os_kind (o_now p)) (os_kind now) then []
+         else match os_kind now with KFile _ => [SPUpload k] | KDir => [] end) ++
         [SLink k; SRow]
       end
   end.
+Definition knows_peers (x : st) (sl : slot) : bool :=
+  forallb (fun p => Nat.leb (o_ev p) (sel (negb (sl_side sl)) (mcur x))) (sl_peers sl).
 Definition plan_sync (adopt : bool) (x : st) (i : nat) : list mop :=
   match nth_error (slots x) i with
   | None => []
-  | Some sl => map (MSlot i) (plan_sync_slot adopt sl)
+  | Some sl => map (MSlot i) (plan_sync_slot adopt (knows_peers x sl) sl)
   end.
 
 (* event intake of side s (EventManager._do_unsafe): every event beyond the in-memory position is applied and
@@ -685,9 +691,20 @@ Definition sx_sop (o : sop) : sx :=
   end.
 
 (* what the recovery of a crash state does: per slot the provider writes of its sync plan, and the outcome *)
+(* a rename to the path the peer already has (half-recorded rename) is issued again by the engine and changes
+   nothing at the provider: only writes that change a provider are compared with the real recovery *)
+Definition effective (sl : slot) (o : sop) : bool :=
+  is_provider_write o &&
+  match o with
+  | SPRename k => match nth_error (sl_peers sl) k with
+                  | Some p => negb (N.eqb (os_path (o_now p)) (os_path (o_now (sl_org sl))))
+                  | None => true
+                  end
+  | _ => true
+  end.
 Definition recovery_writes (adopt : bool) (x : st) : list sx :=
   let a := do_intake true (do_intake false (crash x)) in
-  map (fun sl => L (map sx_sop (filter is_provider_write (plan_sync_slot adopt sl)))) (slots a).
+  map (fun sl => L (map sx_sop (filter (effective sl) (plan_sync_slot adopt (knows_peers a sl) sl)))) (slots a).
 
 Definition mk_state (sls : list slot) (n0 n1 c0 c1 : N) : st :=
   {| slots := sls; nev := (N.to_nat n0, N.to_nat n1); mcur := (N.to_nat c0, N.to_nat c1);
